@@ -163,6 +163,12 @@ func TestProp(t *testing.T) {
 		}
 		endless := rapid.IntRange(0, 3).Draw(t, "endless") == 0
 		if endless {
+			// the program only spins forever if its finite part completes
+			if _, out, _ := eng.Reference(p, nil); out.Class != "ok" {
+				endless = false
+			}
+		}
+		if endless {
 			body := []m.Stmt{gen.Print(m.StrLit("@iter")), gen.Print(m.StrLit("spin"))}
 			if rapid.Bool().Draw(t, "forever-for") {
 				big := &m.Binary{Op: "*", L: m.NumLit(1e150), R: m.NumLit(1e150), Ty: m.TNum}
